@@ -1600,13 +1600,29 @@ func (t *tScreen) parseXtermMouse(buf *bytes.Buffer, evs *[]Event) (bool, bool) 
 			}
 			state++
 		case 3:
-			btn = int(b[i])
+			// the button code is sent with an offset of 32
+			btn = int(b[i]) - 32
 			state++
 		case 4:
 			x = int(b[i]) - 32 - 1
 			state++
 		case 5:
 			y = int(b[i]) - 32 - 1
+
+			motion := (btn & 32) != 0
+			scroll := (btn & 0x42) == 0x40
+			btn &^= 32
+			if motion {
+				// as for SGR reports: motion shows a button only
+				// while one is held down
+				if !t.buttondn {
+					btn |= 3
+					btn &^= 0x40
+				}
+			} else if !scroll {
+				// code 3 is the release in the legacy protocol
+				t.buttondn = btn&3 != 3
+			}
 			for i >= 0 {
 				_, _ = buf.ReadByte()
 				i--
